@@ -20,6 +20,7 @@ theorem wf_step (d : DD β) (h : WF d) (op : Op β) (ha : Adm d op) : WF (d.step
   | revert k => exact wf_revert d h.wfs k ha.1
   | resize nb => exact wf_resize d h nb ha
   | setPunch p => exact wf_setPunch d h p
+  | lunmap => exact wf_lunmap d h
 
 /-- The refinement relation: the model shows the specified volume, and every retained
     user-created snapshot shows its frozen image. -/
@@ -79,6 +80,7 @@ theorem refines_step (d : DD β) (s : Spec β) (r : Refines d s) (op : Op β) (h
       rw [live_revert]; exact r.snap k ha.2.2 u
     | resize nb => exact r.live u
     | setPunch p => exact r.live u
+    | lunmap => exact r.live u
   · -- retained user snapshots
     intro i hi u
     cases op with
@@ -155,6 +157,7 @@ theorem refines_step (d : DD β) (s : Spec β) (r : Refines d s) (op : Op β) (h
       rw [view_revert d k i u hik.1]; exact r.snap i hik.2 u
     | resize nb => exact r.snap i hi u
     | setPunch p => exact r.snap i hi u
+    | lunmap => exact r.snap i hi u
 
 /-- Running a list of requests in model and specification side by side. -/
 def runWith (d : DD β) (s : Spec β) : List (Op β) → DD β × Spec β
